@@ -655,6 +655,61 @@ func properties() map[string]*propDef {
 		Rule:           "mutator operation x router x entry point x target; per item one race query per pair of conflicting accesses (store vs load/store of an overlapping location in different threads) and one stuck-state query, over all schedules",
 		RequiredCovers: []string{"threads-analysed", "ran", "unrelated-compared", "later-requests-compared", "saw-the-change", "saw-the-old-state"},
 	}
+	m["C16"] = &propDef{
+		ID: "C16",
+		Items: func(tier string, seed int) []item {
+			var out []item
+			label := "entity kind (JSON, XML), request body coding (none, gzip, deflate), compressor provider, writing call (bit 0 pretty print, 2 WriteEntity, 4 WriteHeaderAndEntity), Content-Type spelling (verbatim, +parameter suffix, absent with default, unregistered with default, unregistered without default), earlier requests (none, 5 kinds of broken body, a good one, two mixes)"
+			add := func(c ...int) { out = append(out, item{Harness: "H_C16", Cfg: c, Label: label}) }
+			wmodes := []int{0, 1, 2, 3, 4, 5}
+			if tier == "thorough" {
+				for kind := 0; kind < 2; kind++ {
+					for coding := 0; coding < 3; coding++ {
+						for prov := 0; prov < 3; prov++ {
+							for _, wm := range wmodes {
+								for ct := 0; ct < 5; ct++ {
+									for hist := 0; hist < 9; hist++ {
+										add(kind, coding, prov, wm, ct, hist)
+									}
+								}
+							}
+						}
+					}
+				}
+				return out
+			}
+			// quick: two full sub-products, the remaining dimensions rotating with the seed
+			i := seed
+			for kind := 0; kind < 2; kind++ {
+				for coding := 0; coding < 3; coding++ {
+					for prov := 0; prov < 3; prov++ {
+						for hist := 0; hist < 9; hist++ {
+							i++
+							add(kind, coding, prov, wmodes[i%6], (i/6)%4, hist) // ctmode 4 (must fail) is in the second product
+						}
+					}
+				}
+			}
+			for kind := 0; kind < 2; kind++ {
+				for _, wm := range wmodes {
+					for ct := 0; ct < 5; ct++ {
+						i++
+						add(kind, i%3, (i/3)%3, wm, ct, (i/9)%9)
+					}
+				}
+			}
+			return out
+		},
+		Bounds: map[string]interface{}{"value": "a struct with an int64 field (all 2^64 values), a string field of <= 3 bytes in a-z, and for JSON an untyped field holding the same int64",
+			"content_type_suffix_bytes": 8, "earlier_requests": "0..2 before the judged one, sharing the compressor provider",
+			"configurations": "quick: 222 of the 4860 combinations (two full sub-products); thorough: all 4860"},
+		Assumptions: append([]string{
+			"TRUSTED, NOT CHECKED: encoding/json, encoding/xml, compress/gzip and compress/zlib themselves. Symbolically the serialisation of a value is an opaque token that the decoder of the same kind turns back into an equal value (a decoder of the other kind, a cut or destroyed token, or a body already read give an error); a compressed stream is an opaque token that the decompressor of the same coding opens (anything else gives an error). Natively (replay, differential) the real packages run. The statement's equality 'for every value in the codecs' common domain' and 'strings with any unicode' are therefore outside this check; what is decided is go-restful's part: reader selection by Content-Type spelling and default, decompressor selection by Content-Encoding, Reset of pooled readers, release bookkeeping, the number-preserving JSON decoder, errors instead of panics, independence from earlier requests",
+			"json numbers decoded into interface{} without UseNumber are modelled as float64: exact for |n| <= 2^53 and even n, arbitrary for odd n beyond",
+			"a Content-Type parameter suffix that itself contains '/' (could spell another registered media type) is left open"}, commonAssumptions...),
+		Rule:           "entity kind x body coding x provider x writing call x Content-Type spelling x history of earlier requests; per combination the value, the parameter suffix and the lengths are symbolic",
+		RequiredCovers: []string{"read-back", "large-integer", "earlier-broken-request", "earlier-good-request", "unusable-content-type", "content-type-with-parameter"},
+	}
 	m["C15"] = &propDef{
 		ID: "C15",
 		Items: func(tier string, seed int) []item {
